@@ -83,7 +83,7 @@ def serve_histories(chk, drv, thorough):
     """History dimension (spec/ledger/ChainSyncServe.tla): interleaved construct / encode steps of 2 and 3 serve
     operations; TLC checks OwnContent on the state machine and emits every complete history x block assignment."""
     files = []
-    for c in ("ChainSyncServe2.cfg", "ChainSyncServe3Thorough.cfg" if thorough else "ChainSyncServe3.cfg"):
+    for c in ("ChainSyncServeThorough.cfg" if thorough else "ChainSyncServe.cfg",):
         r = vlib.run_tlc("ledger/ChainSyncServe", cfg=c, timeout=240)
         vlib.tlc_must_pass(r, c)
         chk.add_tlc(c, r)
@@ -94,7 +94,7 @@ def serve_histories(chk, drv, thorough):
     if thorough:
         # vacuity: in the defective design (messages refer to a shared scratch area) TLC must find the
         # construct-construct-encode counterexample
-        r = vlib.run_tlc("ledger/ChainSyncServe", cfg="ChainSyncServe2Defect.cfg", timeout=120)
+        r = vlib.run_tlc("ledger/ChainSyncServe", cfg="ChainSyncServeDefect.cfg", timeout=120)
         if r.ok or not (r.violation and "OwnContent" in r.violation):
             raise vlib.MachineryError("ChainSyncServe: SharedScratch=TRUE does not violate OwnContent: %s"
                                       % (r.violation or r.error))
